@@ -52,7 +52,7 @@ Definition fail {A} (e : cerr) : M A := ([], inl e).
 Definition bind {A B} (m : M A) (f : A -> M B) : M B :=
   match m with
   | (t, inl e) => (t, inl e)
-  | (t, inr x) => (t ++ fst (f x), snd (f x))
+  | (t, inr x) => let r := f x in (t ++ fst r, snd r)
   end.
 Definition touch (a : arr) (i : Z) : M unit := ([(a, i)], inr tt).
 (* "if (b) ERREXIT(e);" *)
